@@ -769,6 +769,86 @@ example :
 
 end Swat4.C11
 
+/-! ### non-vacuity, continued: the remaining clauses and the machine corollaries -/
+namespace Swat4.C11
+open Swat4 Swat4.RStore Std
+
+/-- a resolver that answers with the stored record marked `info` (status bit 2 set) -/
+def markRes : Resolver := fun ex => some { ex with status := ex.status ||| 2#9 }
+
+/-- `add_resolved`, `update_missing`, `update_equal_version`, `remove_missing`, `remove_current`, `remove_newer_resolved`
+on `demoState` / the absent address of `otherServer`: every hypothesis is satisfiable -/
+example :
+    (demoState.add 9 demoServer markRes).2 = .ok { demoServer with version := 2, status := 6#9 ||| 2#9 } ∧
+    demoState.update 9 otherServer (fun _ => none) = (demoState, .error .serverNotFound) ∧
+    (demoState.update 9 { demoServer with version := 1 } (fun _ => none)).2 = .ok { demoServer with version := 2 } ∧
+    demoState.remove otherServer (fun _ => none) = (demoState, .ok ()) ∧
+    (demoState.remove { demoServer with version := 1 } (fun _ => none)).1.getRow demoServer.addr = none ∧
+    (demoState.remove demoServer some).1.getRow demoServer.addr = none := by
+  have hother : demoState.getRow otherServer.addr = none := by
+    simp [demoState, AbsState.getRow, AbsState.save, demoServer, otherServer, Addr.key]
+  refine ⟨?_, update_missing _ _ _ _ hother, ?_, remove_missing _ _ _ hother, ?_, ?_⟩
+  · rw [add_resolved demoState 9 demoServer markRes ⟨{ demoServer with version := 1 }, 5⟩
+      { demoServer with version := 1, status := 6#9 ||| 2#9 } demoState_row rfl]
+    rfl
+  · exact (update_equal_version demoState 9 { demoServer with version := 1 } (fun _ => none)
+      ⟨{ demoServer with version := 1 }, 5⟩ demoState_row rfl).1
+  · rw [remove_current demoState { demoServer with version := 1 } (fun _ => none) ⟨{ demoServer with version := 1 }, 5⟩
+      demoState_row (by decide)]
+    show (demoState.servers.erase demoServer.addr.key)[demoServer.addr.key]? = none
+    simp
+  · rw [remove_newer_resolved demoState demoServer some ⟨{ demoServer with version := 1 }, 5⟩ { demoServer with version := 1 }
+      demoState_row (by decide) rfl]
+    show (demoState.servers.erase demoServer.addr.key)[demoServer.addr.key]? = none
+    simp
+
+/-- the keyspace after `Add demoServer` at clock 5 run by the writer machine on the empty keyspace -/
+def demoStore : RStore := (W {} 5 .add demoServer (fun _ => none) 0 1).1
+
+/-- it stands for `demoState`, holds no lock cell on the key, and stores the version-1 record (`add_fresh_machine` applies
+to the empty keyspace) -/
+theorem demoStore_facts :
+    Rel demoStore demoState ∧ demoStore.locks[demoServer.addr.key]? = none ∧
+    demoStore.items[demoServer.addr.key]? = some (stored demoServer) := by
+  have hw := write_refines consistent_empty Swat4.rel_empty 5 ⟨.add, demoServer, fun _ => none⟩ 0 1 (by simp)
+  have hf := add_fresh_machine Swat4.rel_empty 5 demoServer (fun _ => none) 0 1 (by simp) (by simp)
+  refine ⟨?_, hw.2.2.2.2, hf.2.1⟩
+  have h2 := hw.2.1
+  have e : (specWrite {} 5 ⟨.add, demoServer, fun _ => none⟩).1 = demoState := by
+    rw [(specWrite_add {} 5 demoServer (fun _ => none)).1, add_fresh _ _ _ _ (by simp [AbsState.getRow])]
+    rfl
+  rw [e] at h2
+  exact h2
+
+/-- the machine corollaries' hypotheses are satisfiable on `demoStore`: a second `Add` is refused with *exists*, an
+`Update` at the stored version 1 commits version 2, a `Remove` carrying version 0 against a refusing resolver is
+defended (reply nil, record still there), an `Update` carrying version 0 with the identity resolver stores version 2 -/
+example :
+    (W demoStore 9 .add demoServer (fun _ => none) 1 2).2.pc = .done (.error .exists) ∧
+    (W demoStore 9 .update (stored demoServer) (fun _ => none) 1 2).2.pc = .done (.ok (some (stored (stored demoServer)))) ∧
+    (W demoStore 9 .remove demoServer (fun _ => none) 1 2).1.items[demoServer.addr.key]? = some (stored demoServer) ∧
+    (W demoStore 9 .update demoServer some 1 2).2.pc = .done (.ok (some (stored (stored demoServer)))) := by
+  obtain ⟨hrel, hno, hit⟩ := demoStore_facts
+  exact ⟨(add_refused_machine hrel 9 demoServer _ 1 2 hno _ hit rfl).1,
+    (update_current_machine hrel 9 (stored demoServer) _ 1 2 hno _ hit (Int.le_refl _)).1,
+    (remove_defended_machine hrel 9 demoServer _ 1 2 hno _ hit (by decide) rfl).2.2,
+    (update_newer_resolved_machine hrel 9 demoServer some 1 2 hno _ _ hit (by decide) rfl).1⟩
+
+end Swat4.C11
+
+namespace Swat4.C11
+open Swat4 Swat4.RStore Std
+
+/-- … `update_missing_machine` on the empty keyspace, `remove_current_machine` on `demoStore` -/
+example :
+    (W {} 5 .update demoServer (fun _ => none) 0 1).2.pc = .done (.error .notFound) ∧
+    (W demoStore 9 .remove (stored demoServer) (fun _ => none) 1 2).1.items[demoServer.addr.key]? = none := by
+  obtain ⟨hrel, hno, hit⟩ := demoStore_facts
+  exact ⟨(update_missing_machine Swat4.rel_empty 5 demoServer _ 0 1 (by simp) (by simp)).1,
+    (remove_current_machine hrel 9 (stored demoServer) _ 1 2 hno _ hit (Int.le_refl _)).2⟩
+
+end Swat4.C11
+
 /-! # Additions (review round 2): the read arms of the driver's `runCall` are the model's reads -/
 namespace Swat4.C11
 open Swat4 Swat4.RStore Std
